@@ -1,7 +1,7 @@
 (** C13 — statements assembled for Properties/C13.v (token-level facts in the
     boolean form used there, and the refutation witnesses). *)
 From Coq Require Import String Ascii List Bool Arith NArith Lia.
-From Raven Require Import Base.GoStr Base.GoStrFacts Spec.Grammar Model.Respond
+From Raven Require Import Base.GoStr Base.GoStrFacts Spec.Grammar Model.Respond Model.RespondFetch
      Proof.Grammar Proof.RespondTok Proof.RespondAsm.
 Import ListNotations.
 
@@ -83,3 +83,45 @@ Lemma refuted_flag_atom :
   exists flags, classify_flags flags = Some flag_atom
     /\ wf_stream (send (fetch_line 1 [Inline (S_ "FLAGS") (LP :: flags ++ [RP])])) = false.
 Proof. exists (S_ "x)y"). vm_compute. auto. Qed.
+
+(** ---- requested items that are not answered under their own name ---- *)
+Definition w_env : fenv :=
+  Build_fenv 7 (S_ "\Seen") (S_ "01-Jan-2024 00:00:00 +0000")
+    (S_ "Subject: x" ++ crlf ++ S_ "To: a@b" ++ crlf ++ crlf ++ S_ "hello world" ++ crlf)
+    (S_ "(""TEXT"" ""PLAIN"" NIL NIL NIL ""7BIT"" 13 1 NIL NIL NIL)") [(S_ "1", S_ "hello world")].
+
+Definition unanswered (req : list fitem) (cls : finding) : Prop :=
+  classify_req req = Some cls
+  /\ match fetch_plan (fetch_items (render_req req)) w_env with
+     | Some plan => answered req plan = false
+     | None => False
+     end.
+
+Lemma refuted_item_suppressed_body :
+  unanswered [I_Simple (S_ "BODY"); I_Sec true (S_Part (S_ "1") false) None] item_suppressed.
+Proof. vm_compute. auto. Qed.
+
+Lemma refuted_item_suppressed_rfc822 :
+  unanswered [I_Simple (S_ "RFC822"); I_Simple (S_ "RFC822.SIZE")] item_suppressed.
+Proof. vm_compute. auto. Qed.
+
+Lemma refuted_item_suppressed_header :
+  unanswered [I_Sec false S_Header None; I_Sec false (S_Fields [S_ "TO"]) None] item_suppressed.
+Proof. vm_compute. auto. Qed.
+
+Lemma refuted_rfc822_renamed : unanswered [I_Simple (S_ "RFC822")] rfc822_renamed.
+Proof. vm_compute. auto. Qed.
+
+Lemma refuted_partial_range : unanswered [I_Sec false S_Text (Some (0, 5))] partial_range.
+Proof. vm_compute. auto. Qed.
+
+(** a request without such a shape, answered item by item (non-vacuity of [answered]) *)
+Lemma answered_example :
+  let req := [I_Simple (S_ "UID"); I_Simple (S_ "FLAGS"); I_Simple (S_ "ENVELOPE");
+              I_Sec true (S_Fields [S_ "Subject"; S_ "to"]) None] in
+  classify_req req = None
+  /\ match fetch_plan (fetch_items (render_req req)) w_env with
+     | Some plan => answered req plan = true /\ classify_plan plan = None /\ forallb out_okb plan = true
+     | None => False
+     end.
+Proof. vm_compute. auto. Qed.
